@@ -273,7 +273,8 @@ def r17_5(cx):
         else:
             cx.fail('release-edge', fn, r.loc(), 'release site is on neither the Ok nor the Err edge of read_n_impl')
     # the buffer: from_raw_parts_mut(base, count) of the reservation; reader gets &mut slice[got..]
-    buf = ic.arg(2)
+    bufs = [a for a in ic.args() if list(a.calls('from_raw_parts_mut'))]   # whichever position the buffer is passed in
+    buf = bufs[0] if len(bufs) == 1 else ic.arg(ic.nargs() - 2)
     frp = [c for c in buf.calls('from_raw_parts_mut')]
     okb = len(frp) == 1 and frp[0].args[0].has_call(ARENA + '::alloc') and frp[0].args[1].strip().kind == 'param' and frp[0].args[1].strip().info['i'] == cnt
     cx.check(okb, 'buffer-is-reservation', fn, ic.loc(), 'the reader buffer is exactly the `count` reserved bytes', fail_detail='buffer is %s' % show(buf)[:160])
